@@ -7,8 +7,10 @@ THEOREMS = ['closed_callers_enabled', 'cancelled_caller_enabled', 'caller_varian
             'cancelled_reply_unsolicited', 'no_panic', 'monitor_sound',
             'unrequested_close_response_fails', 'chan_caps', 'deliver_never_blocks', 'deliver_after_cancel', 'errs_never_full',
             # about the go2seq translation of the source, for every environment
-            'src_send_closed', 'src_send_success_only_by_reply', 'src_read_loop_done', 'src_read_loop_failure']
-MODULES = ['LLRP.Proofs.SeqSend', 'LLRP.Proofs.SeqReadLoop', 'LLRP.Model.GoSeq', 'LLRP.Model.ClientLTS', 'LLRP.Model.ClientMon', 'LLRP.Proofs.ClientLTS', 'LLRP.Proofs.ClientLTS2', 'LLRP.Proofs.ClientLive', 'LLRP.Oracle.LTSim', 'LLRP.Oracle.C09']
+            'src_send_closed', 'src_send_success_only_by_reply', 'src_read_loop_done', 'src_read_loop_failure',
+            # about the go2seq translation of the write loop, for every behaviour of the environment
+            'src_parks_after_close', 'src_write_loop_never_nil']
+MODULES = ['LLRP.Proofs.SeqWriteLoop', 'LLRP.Proofs.SeqSend', 'LLRP.Proofs.SeqReadLoop', 'LLRP.Model.GoSeq', 'LLRP.Model.ClientLTS', 'LLRP.Model.ClientMon', 'LLRP.Proofs.ClientLTS', 'LLRP.Proofs.ClientLTS2', 'LLRP.Proofs.ClientLive', 'LLRP.Oracle.LTSim', 'LLRP.Oracle.C09']
 RULE = ('fault scripts over the real Client on net.Pipe, compared line by line with the run of the LTS: a session script (greeting, '
         'negotiation with a 1.0.1 / 1.1 reader or none, requests with replies, keep-alive, report) in which the peer vanishes at every '
         'frame boundary and inside frames (header / payload offsets; thorough: every byte offset), in both directions; Close / Shutdown / '
